@@ -29,6 +29,9 @@ type Ev struct {
 	Build func(v View) (sdk.Msg, string)
 	Gov   bool      // executed the way x/gov executes authority messages (no tx, no ante)
 	Fee   sdk.Coins // fee of the transaction (mode B real, mode A emulated)
+	// Custom is a harness-level event (e.g. module export/import restart) executed on a branch in
+	// mode A; histories containing it are not replayed in mode B. ok=false: not enabled here.
+	Custom func(w *harness.World, ctx sdk.Context) (next sdk.Context, out harness.Outcome, ok bool)
 }
 
 // StepInfo is what a step oracle sees.
@@ -113,7 +116,13 @@ func (w *scnWorker) Apply(s interface{}, evi int, check bool) (explore.Step, []*
 	var out harness.Outcome
 	var msg sdk.Msg
 	var signer string
-	if ev.Block > 0 {
+	if ev.Custom != nil {
+		var ok bool
+		next, out, ok = ev.Custom(w.w, st.ctx)
+		if !ok {
+			return explore.Step{}, nil
+		}
+	} else if ev.Block > 0 {
 		if w.scn.BlockFn != nil {
 			next, out = w.w.ModuleBlock(st.ctx, ev.Block, func(c sdk.Context) { w.scn.BlockFn(w.w, c) })
 		} else {
@@ -176,7 +185,7 @@ type ConformOpts struct {
 	Seed      int64
 	// BStep is called after every event in mode B (pre/post digests of the masked state can be
 	// computed by the hook itself from n.Ctx()).
-	BStep func(n *harness.Node, ev *Ev, msg sdk.Msg, signer string, preDigest string, out harness.Outcome) []*explore.Violation
+	BStep    func(n *harness.Node, ev *Ev, msg sdk.Msg, signer string, preDigest string, out harness.Outcome) []*explore.Violation
 	Deadline time.Time
 	// RejectedUnchanged: property id under which "a rejected transaction changed nothing but the
 	// signer's own auth record" is decided after every DeliverTx with non-zero code.
@@ -184,13 +193,14 @@ type ConformOpts struct {
 }
 
 type ConformResult struct {
-	Traces      int
-	Steps       int
-	Mismatches  []string
-	Violations  []*explore.Violation
-	Capped      bool
-	TotalTraces int
+	Traces          int
+	Steps           int
+	Mismatches      []string
+	Violations      []*explore.Violation
+	Capped          bool
+	TotalTraces     int
 	RejectedChecked int
+	SkippedCustom   int
 }
 
 // RunEventB executes one scenario event on a node.
@@ -225,8 +235,23 @@ func RunEventB(scn *Scenario, n *harness.Node, ev *Ev) (sdk.Msg, string, harness
 // after every event with what mode A recorded.
 func Conform(scn *Scenario, events []string, tree []explore.TreeNode, opt ConformOpts) *ConformResult {
 	idx := explore.Index(tree)
-	paths := explore.MaximalPaths(tree)
-	res := &ConformResult{TotalTraces: len(paths)}
+	all := explore.MaximalPaths(tree)
+	var paths [][]uint16
+	skipped := 0
+	for _, p := range all {
+		custom := false
+		for _, e := range p {
+			if scn.Events[e].Custom != nil {
+				custom = true
+			}
+		}
+		if custom {
+			skipped++
+			continue
+		}
+		paths = append(paths, p)
+	}
+	res := &ConformResult{TotalTraces: len(paths), SkippedCustom: skipped}
 	// deterministic order; the seed only rotates which traces come first when capped
 	sort.Slice(paths, func(i, j int) bool { return fmt.Sprint(paths[i]) < fmt.Sprint(paths[j]) })
 	if opt.MaxTraces > 0 && len(paths) > opt.MaxTraces {
